@@ -33,15 +33,49 @@ def rand_single(rng, path_mode, ext=True, alpha='ab.c'):
     return (('lit', 'a'),)
 
 
+def L(x):
+    return tuple(('lit', ch) for ch in x)
+
+
+def S(*members):
+    return ('set', False, tuple(('c', m) for m in members))
+
+
+# singles whose text holds `|`, `(` or `)` where they do NOT split or close anything: inside brackets, inside extended groups,
+# inside brackets inside groups, escaped. (text, AST, needs EXTMATCH)
+RAW_SINGLES = [
+    ('@(a[)]|b)', (('grp', '@', (L('a') + (S(')'),), L('b'))),), True),
+    ('+([)(]|b)c', (('grp', '+', ((S(')', '('),), L('b'))),) + L('c'), True),
+    ('a[|]b', L('a') + (S('|'),) + L('b'), False),
+    ('[a|b]', (S('a', '|', 'b'),), False),
+    ('@(a|[|]b)', (('grp', '@', (L('a'), (S('|'),) + L('b'))),), True),
+    ('@(a|@(c[)]|b))b', (('grp', '@', (L('a'), (('grp', '@', (L('c') + (S(')'),), L('b'))),))),) + L('b'), True),
+    ('*(a\\|b|c)', (('grp', '*', (L('a|b'), L('c'))),), True),
+    ('a\\|b', L('a|b'), False),
+    ('?(a|b)[(]', (('grp', '?', (L('a'), L('b'))), S('(')), True),
+    ('[)]a|b'.split('|')[0], (S(')'),) + L('a'), False),
+    ('!(a[|)]|b)', (('grp', '!', (L('a') + (S('|', ')'),), L('b'))),), True),
+]
+
+
+def ser_single(t):
+    return t[1] if t and t[0] == 'raw' else gen.ser(t)
+
+
+def ast_single(t):
+    return t[2] if t and t[0] == 'raw' else t
+
+
 def build_text(rng, singles, how):
     """Join the serialised singles into one pattern text. how: 'plain' | 'split' | 'brace' | 'brace-affix'."""
-    texts = [gen.ser(t) for t in singles]
+    texts = [ser_single(t) for t in singles]
+    asts = [ast_single(t) for t in singles]
     if how == 'plain' or len(singles) == 1:
-        return texts[0], [(texts[0], singles[0])], set()
+        return texts[0], [(texts[0], asts[0])], set()
     if how == 'split':
-        return '|'.join(texts), list(zip(texts, singles)), {'SPLIT'}
+        return '|'.join(texts), list(zip(texts, asts)), {'SPLIT'}
     if how == 'brace':
-        return '{' + ','.join(texts) + '}', list(zip(texts, singles)), {'BRACE'}
+        return '{' + ','.join(texts) + '}', list(zip(texts, asts)), {'BRACE'}
     raise ValueError(how)
 
 
@@ -108,6 +142,10 @@ def rand_composite(rng, path_mode, max_inc=4, max_exc=3):
                     remaining -= 1
                     continue
             singles = [rand_single(rng, path_mode, ext) for _ in range(k)]
+            if rng.random() < 0.12:
+                raws = [r for r in RAW_SINGLES if ext or not r[2]]
+                text_, ast_, _e = rng.choice(raws)
+                singles[rng.randrange(k)] = ('raw', text_, ast_)
             how = 'plain' if k == 1 else rng.choice(('split', 'brace'))
             text, pairs, need = build_text(rng, singles, how)
             out.append((text, pairs, need))
